@@ -269,6 +269,33 @@ Example verify_nonvacuous :
   /\ verify (mkCfg VERIFY_SERVER HOST_RECEPTOR (str "node-a"%string) [repeat 9 31; ex_d256]) ex_facts ex_now = Refuse R_PINLEN.
 Proof. vm_compute. repeat split; reflexivity. Qed.
 
+(* ---------- the pin is about the peer's own certificate ---------- *)
+(* with no other certificate presented the two verifiers are the same function ... *)
+Theorem verify_any_alone_proof c f now : verify_any c f [] now = verify c f now.
+Proof.
+  unfold verify_any, verify, pins_step_any.
+  destruct (negb (f_present f)); [reflexivity|]. destruct (negb (f_parses f)); [reflexivity|].
+  destruct (role_of (c_vtype c)); [|reflexivity].
+  destruct (pins_step (c_pins c) f) as [|w]; [reflexivity|].
+  cbn [existsb]. now rewrite andb_false_r.
+Qed.
+
+(* ... but a peer whose own certificate matches no pin is accepted as soon as it appends a pinned
+   certificate to its certificate message *)
+Definition stranger_facts : facts :=
+  mkFacts true true (repeat 5 28) (repeat 6 32) (repeat 7 48) (repeat 8 64) true true 50 200 true true
+          (dns_in []) (Ok [str "somebody-else"%string]).
+
+Theorem pin_any_certificate_refuted_proof :
+  let c := mkCfg VERIFY_SERVER HOST_RECEPTOR (str "node-a"%string) [repeat 6 32] in
+  verify c ex_facts ex_now = Refuse R_PINMISS /\
+  ~ pins_ok (c_pins c) ex_facts /\
+  verify_any c ex_facts [stranger_facts] ex_now = Accept.
+Proof.
+  cbv zeta. split; [vm_compute; reflexivity|]. split; [|vm_compute; reflexivity].
+  rewrite <- pins_step_accept. vm_compute. discriminate.
+Qed.
+
 (* ---------- the configuration layer: fingerprints ---------- *)
 Lemma decode_fingerprint_len s b : decode_fingerprint s = Some b -> legal_len (blen b) = true.
 Proof.
